@@ -223,6 +223,8 @@ def install_node_protocol(H: PassHarness):
             if a == "_ufl_handler_name_":
                 cn = tags.get("ufl_class")
                 return H.ctx.tm.types[cn].handler if cn in H.ctx.tm.types else NotImplemented
+            if a == "side" and "_side" in tags:
+                return lambda: tags["_side"]
             if a == "value" and "_value" in tags:
                 return lambda: tags["_value"]
             if a == "_value" and "_value" in tags:
